@@ -1119,4 +1119,265 @@ Section Quiet.
       destruct E as [Ed Em]. rewrite Em. apply N4. rewrite <- Ed. exact X.
     - split; [exact I4|]. unfold P9. intros _ X. apply N4. exact X.
   Qed.
+
+  Definition arr (e : ev) : list item := match e with EEnv r => r_arrive r | _ => [] end.
+
+  Lemma step_Inv e s fut : res s = 0 -> Inv s (arr e ++ fut) -> P9 s -> Inv (step c e s) fut /\ P9 (step c e s).
+  Proof.
+    intros R0 I0 N9. unfold step. rewrite R0. change (negb (0 =? 0)) with false. cbv iota.
+    assert (KEEP : forall s', Inv s' fut -> dstate s' = dstate s -> messages s' = messages s -> (res s' = 0 -> True) -> Inv s' fut /\ P9 s').
+    { intros s' I' D' M' _. split; [exact I'|]. unfold P9. rewrite D', M'. intros _. apply N9. exact R0. }
+    destruct e; cbn [arr app] in I0.
+    - apply KEEP; auto; [apply env_Inv; exact I0| |]; unfold env_step; destruct (r_rd r); reflexivity.
+    - unfold poll_graceful. destruct (i_sig _ _ I0) as [SA _]. rewrite SA. cbn [andb]. split; assumption.
+    - unfold poll_head_timer. rewrite fx3. destruct (t_ready (head_t s) (now s)) eqn:TR; [|split; assumption].
+      cbv zeta. change (shutdown (set_head_t TInactive s)) with (shutdown s). change (read_disc (set_head_t TInactive s)) with (read_disc s).
+      destruct (shutdown s) eqn:SH; cbn [orb]; [apply KEEP; auto; apply Inv_head_off; exact I0|].
+      destruct (read_disc s) eqn:RD; [apply KEEP; auto; apply Inv_head_off; exact I0|].
+      apply head408_Inv; assumption.
+    - apply KEEP; auto; [|unfold poll_ka_timer; repeat bm; reflexivity|unfold poll_ka_timer; repeat bm; reflexivity].
+      revert I0. unfold poll_ka_timer. repeat bm; try (intro; assumption); apply Inv_mono; mono.
+      all: try (intros _; cbn; rewrite ?orb_true_r; reflexivity).
+    - apply KEEP; auto; [|unfold poll_sd_timer; repeat bm; reflexivity|unfold poll_sd_timer; repeat bm; reflexivity].
+      revert I0. unfold poll_sd_timer. repeat bm; try (intro; assumption); apply Inv_mono; mono.
+      all: try (cbn; discriminate). all: try (intros _; cbn; rewrite ?orb_true_r; reflexivity).
+    - destruct (linger s) eqn:L; [|split; assumption].
+      destruct (linger_Inv s fut wblock I0 L) as (I1 & D1 & M1 & R1). apply KEEP; auto.
+    - destruct (negb (linger s) && shutdown s); [|split; assumption].
+      apply KEEP; auto.
+      + revert I0. unfold shutdown_io, ensure_linger_timer, flush. rewrite fx3.
+        repeat bm; repeat match goal with E : (_, _) = (_, _) |- _ => inv E end; try (intro; assumption); apply Inv_mono; mono.
+      + unfold shutdown_io, ensure_linger_timer, flush. repeat bm; repeat match goal with E : (_, _) = (_, _) |- _ => inv E end; reflexivity.
+      + unfold shutdown_io, ensure_linger_timer, flush. repeat bm; repeat match goal with E : (_, _) = (_, _) |- _ => inv E end; reflexivity.
+    - destruct (linger s) eqn:L; cbn [orb]; [split; assumption|]. destruct (shutdown s) eqn:SH; [split; assumption|].
+      apply read_phase_Inv; assumption.
+    - unfold response_phase.
+      match goal with |- context [poll_response ?f c s] => destruct (poll_response_Inv fut f s I0) as [I1 N1]; set (s1 := poll_response f c s) in * end.
+      set (s2 := if keep_alive s1 && finished s1 then match ka c with KaTimeout d => set_ka_tm (arm d s1) s1 | _ => s1 end else s1).
+      assert (I2 : Inv s2 fut /\ dstate s2 = dstate s1 /\ messages s2 = messages s1 /\ res s2 = res s1).
+      { subst s2. destruct (keep_alive s1 && finished s1); [|auto]. destruct (ka c); auto.
+        split; [revert I1; apply Inv_mono; mono|auto]. }
+      destruct I2 as (I2 & D2 & M2 & R2).
+      assert (I3 : Inv (fst (flush wblock s2)) fut /\ dstate (fst (flush wblock s2)) = dstate s1 /\ messages (fst (flush wblock s2)) = messages s1 /\ res (fst (flush wblock s2)) = res s1).
+      { unfold flush. repeat bm; cbn [fst]; auto. split; [revert I2; apply Inv_mono; mono|auto]. }
+      destruct I3 as (I3 & D3 & M3 & R3). split; [exact I3|]. unfold P9. rewrite D3, M3, R3. exact N1.
+    - apply KEEP; auto; [|unfold epilogue; repeat bm; reflexivity|unfold epilogue; repeat bm; reflexivity].
+      revert I0. unfold epilogue. repeat bm; cbn [fst]; try (intro; assumption); apply Inv_mono; mono.
+      all: try (intros _; cbn; rewrite ?orb_true_r; reflexivity).
+  Qed.
 End Quiet.
+
+(* ------------------------------------------------------------------ the theorem *)
+Fixpoint arrivals (es : list ev) : list item :=
+  match es with [] => [] | e :: r => arr e ++ arrivals r end.
+
+(* the tree as delivered: F12 and F14 repaired, F15 not *)
+Definition tree_fixes : fixes := mkFixes true false true.
+(* F15 class of a run (a predicate on the INPUT: configuration, scripts, everything that arrives) *)
+Definition Known_F15 (c : cfg) (hs0 : list (list hact)) (es : list ev) : Prop :=
+  calm c (number 0 hs0) (arrivals es) = false.
+
+Lemma init_Inv c hs0 fut : has_signal c = false -> calm c (number 0 hs0) fut = true ->
+  Inv c (number 0 hs0) (init c hs0) fut /\ P9 (init c hs0).
+Proof.
+  intros NS CA. split; [|unfold P9; reflexivity].
+  constructor; cbn.
+  - split; [exact NS|reflexivity].
+  - split; cbn; intros; congruence.
+  - split; [reflexivity|discriminate].
+  - destruct (req_to c =? 0); cbn; discriminate.
+  - intros _. repeat split.
+  - discriminate.
+  - auto.
+  - discriminate.
+  - discriminate.
+  - right. exact CA.
+  - unfold last_free, ys, inflight. cbn. destruct (is_nil fut); reflexivity.
+  - reflexivity.
+  - discriminate.
+Qed.
+
+Theorem quiet_outside_F15 c hs0 : fx c = tree_fixes -> has_signal c = false ->
+  forall es, ~ Known_F15 c hs0 es ->
+  quiet_after_close (trace (run_events c es (init c hs0))) = true.
+Proof.
+  intros TREE NS es NK.
+  assert (CA : calm c (number 0 hs0) (arrivals es) = true).
+  { unfold Known_F15 in NK. destruct (calm c (number 0 hs0) (arrivals es)); [reflexivity|exfalso; apply NK; reflexivity]. }
+  destruct (init_Inv c hs0 _ NS CA) as [I0 N0].
+  assert (GEN : forall es0 s, (res s = 0 -> Inv c (number 0 hs0) s (arrivals es0) /\ P9 s) ->
+                quiet_after_close (trace s) = true -> quiet_after_close (trace (run_events c es0 s)) = true).
+  { clear I0 N0 CA NK. intros es0. induction es0 as [|e es0 IH]; intros s H Q; cbn [run_events]; [exact Q|].
+    destruct (N.eq_dec (res s) 0) as [R0|R0].
+    - destruct (H R0) as [I0 N0]. cbn [arrivals] in I0.
+      destruct (step_Inv c (number 0 hs0) TREE e s (arrivals es0) R0 I0 N0) as [I1 N1].
+      apply IH; [intros _; split; assumption|]. exact (i_quiet _ _ _ _ I1).
+    - assert (E : step c e s = s).
+      { unfold step. destruct (res s =? 0) eqn:X; [apply N.eqb_eq in X; contradiction|reflexivity]. }
+      rewrite E. apply IH; [intro X; contradiction|exact Q]. }
+  apply GEN; [intros _; split; assumption|reflexivity].
+Qed.
+
+(* the same for sequences of polls *)
+Fixpoint poll_arrivals (rs : list round) : list item :=
+  match rs with [] => [] | r :: t => r_arrive r ++ poll_arrivals t end.
+
+(* every poll IS a sequence of events whose arrivals are the round's bytes *)
+Lemma res_zero_dec s : {res s = 0} + {negb (res s =? 0) = true}.
+Proof. destruct (res s =? 0) eqn:E; [left; apply N.eqb_eq; exact E|right; reflexivity]. Qed.
+
+Lemma step_id c e s : negb (res s =? 0) = true -> step c e s = s.
+Proof. intro H. unfold step. rewrite H. reflexivity. Qed.
+Lemma run_events_id c es : forall s, negb (res s =? 0) = true -> run_events c es s = s.
+Proof. induction es as [|e es IH]; intros s H; cbn; [reflexivity|]. rewrite step_id by exact H. apply IH. exact H. Qed.
+
+Lemma no_arr es : (forall e, In e es -> arr e = []) -> arrivals es = [].
+Proof. induction es as [|e es IH]; intros H; cbn; [reflexivity|]. rewrite (H e) by (left; reflexivity). apply IH. intros x Hx. apply H. right. exact Hx. Qed.
+
+Definition timers_evs (sig : bool) : list ev := [EGraceful sig; EHeadTimer; EKaTimer; ESdTimer].
+
+Lemma run_timers c sig s : res s = 0 ->
+  run_events c (timers_evs sig) s = poll_sd_timer (poll_ka_timer c (poll_head_timer c (poll_graceful sig s))).
+Proof.
+  intro R. unfold timers_evs. cbn [run_events].
+  assert (R1 := res_graceful sig s). rewrite R in R1.
+  assert (R2 := res_head_timer c (poll_graceful sig s)). rewrite R1 in R2.
+  assert (R3 := res_ka_timer c (poll_head_timer c (poll_graceful sig s))). rewrite R2 in R3.
+  unfold step at 4. rewrite R. change (negb (0 =? 0)) with false. cbv iota.
+  unfold step at 3. rewrite R1. change (negb (0 =? 0)) with false. cbv iota.
+  unfold step at 2. rewrite R2. change (negb (0 =? 0)) with false. cbv iota.
+  unfold step at 1. rewrite R3. change (negb (0 =? 0)) with false. cbv iota. reflexivity.
+Qed.
+
+Lemma shutdown_timers c sig s : shutdown s = true ->
+  shutdown (poll_ka_timer c (poll_head_timer c (poll_graceful sig s))) = true.
+Proof.
+  intro S.
+  assert (S1 : shutdown (poll_graceful sig s) = true) by (unfold poll_graceful; repeat bm; cbn; auto).
+  assert (S2 : shutdown (poll_head_timer c (poll_graceful sig s)) = true) by (unfold poll_head_timer; repeat bm; cbn; auto).
+  unfold poll_ka_timer; repeat bm; cbn; auto.
+Qed.
+
+Lemma poll_body_events_shutdown c r f s : shutdown s = true -> res s = 0 ->
+  exists es, poll_body (S f) c r s = run_events c es s /\ (forall e, In e es -> arr e = []).
+Proof.
+  intros S R. rewrite poll_body_S. cbv zeta.
+  pose proof (run_timers c (r_signal r) s R) as RT.
+  pose proof (shutdown_timers c (r_signal r) s S) as S3.
+  set (s3 := poll_ka_timer c (poll_head_timer c (poll_graceful (r_signal r) s))) in *.
+  set (s4 := poll_sd_timer s3) in *.
+  assert (S4 : linger s4 = true \/ shutdown s4 = true).
+  { subst s4. unfold poll_sd_timer. repeat bm; cbn; auto. }
+  destruct (res_zero_dec s4) as [R4|R4].
+  - rewrite R4. change (negb (0 =? 0)) with false. cbv iota.
+    destruct (linger s4) eqn:L4.
+    + exists (timers_evs (r_signal r) ++ [ELinger (r_wblock r)]). split.
+      * rewrite <- RT. change (run_events c (timers_evs (r_signal r) ++ [ELinger (r_wblock r)]) s) with
+          (run_events c [ELinger (r_wblock r)] (run_events c (timers_evs (r_signal r)) s)).
+        rewrite RT. fold s3 s4. cbn [run_events]. unfold step. rewrite R4. change (negb (0 =? 0)) with false. cbv iota. rewrite L4. reflexivity.
+      * intros e [<-|[<-|[<-|[<-|[<-|[]]]]]]; reflexivity.
+    + destruct S4 as [X|S4]; [discriminate|]. rewrite S4.
+      exists (timers_evs (r_signal r) ++ [EShutdownIo (r_wblock r) (r_sdpend r)]). split.
+      * change (run_events c (timers_evs (r_signal r) ++ [EShutdownIo (r_wblock r) (r_sdpend r)]) s) with
+          (run_events c [EShutdownIo (r_wblock r) (r_sdpend r)] (run_events c (timers_evs (r_signal r)) s)).
+        rewrite RT. fold s3 s4. cbn [run_events]. unfold step. rewrite R4. change (negb (0 =? 0)) with false. cbv iota. rewrite L4, S4. reflexivity.
+      * intros e [<-|[<-|[<-|[<-|[<-|[]]]]]]; reflexivity.
+  - rewrite R4. exists (timers_evs (r_signal r)). split; [rewrite RT; reflexivity|].
+    intros e [<-|[<-|[<-|[<-|[]]]]]; reflexivity.
+Qed.
+
+Lemma run_events_app c es1 es2 s : run_events c (es1 ++ es2) s = run_events c es2 (run_events c es1 s).
+Proof. revert s. induction es1 as [|e es1 IH]; intros s; cbn; [reflexivity|apply IH]. Qed.
+
+Lemma poll_body_events c r f s : res s = 0 ->
+  exists es, poll_body (S (S f)) c r s = run_events c es s /\ (forall e, In e es -> arr e = []).
+Proof.
+  intros R. rewrite poll_body_S. cbv zeta.
+  pose proof (run_timers c (r_signal r) s R) as RT.
+  set (s3 := poll_ka_timer c (poll_head_timer c (poll_graceful (r_signal r) s))) in *.
+  set (s4 := poll_sd_timer s3) in *.
+  assert (T0 : forall e, In e (timers_evs (r_signal r)) -> arr e = []) by (intros e [<-|[<-|[<-|[<-|[]]]]]; reflexivity).
+  assert (ONE : forall e x, arr e = [] -> res s4 = 0 -> x = step c e s4 ->
+                exists es, x = run_events c es s /\ (forall e, In e es -> arr e = [])).
+  { intros e x A R4 ->. exists (timers_evs (r_signal r) ++ [e]). split.
+    - rewrite run_events_app, RT. reflexivity.
+    - intros y Hy. apply in_app_or in Hy as [Hy|[<-|[]]]; auto. }
+  destruct (res_zero_dec s4) as [R4|R4].
+  2:{ rewrite R4. exists (timers_evs (r_signal r)). split; [rewrite RT; reflexivity|exact T0]. }
+  rewrite R4. change (negb (0 =? 0)) with false. cbv iota.
+  destruct (linger s4) eqn:L4.
+  { apply (ONE (ELinger (r_wblock r))); auto. unfold step. rewrite R4. change (negb (0 =? 0)) with false. cbv iota. rewrite L4. reflexivity. }
+  destruct (shutdown s4) eqn:S4.
+  { apply (ONE (EShutdownIo (r_wblock r) (r_sdpend r))); auto. unfold step. rewrite R4. change (negb (0 =? 0)) with false. cbv iota. rewrite L4, S4. reflexivity. }
+  assert (E5 : read_phase c s4 = step c EReadPhase s4).
+  { unfold step. rewrite R4. change (negb (0 =? 0)) with false. cbv iota. rewrite L4, S4. reflexivity. }
+  set (s5 := read_phase c s4) in *.
+  assert (RT5 : run_events c (timers_evs (r_signal r) ++ [EReadPhase]) s = s5).
+  { rewrite run_events_app, RT. cbn [run_events]. fold s3 s4. rewrite <- E5. reflexivity. }
+  assert (T5 : forall e, In e (timers_evs (r_signal r) ++ [EReadPhase]) -> arr e = []).
+  { intros y Hy. apply in_app_or in Hy as [Hy|[<-|[]]]; auto. }
+  destruct (res_zero_dec s5) as [R5|R5].
+  2:{ rewrite R5. exists (timers_evs (r_signal r) ++ [EReadPhase]). split; [symmetry; exact RT5|exact T5]. }
+  rewrite R5. change (negb (0 =? 0)) with false. cbv iota.
+  assert (E6 : response_phase c (r_wblock r) s5 = step c (EResponsePhase (r_wblock r)) s5).
+  { unfold step. rewrite R5. reflexivity. }
+  set (s6 := response_phase c (r_wblock r) s5) in *.
+  assert (RT6 : run_events c ((timers_evs (r_signal r) ++ [EReadPhase]) ++ [EResponsePhase (r_wblock r)]) s = s6).
+  { rewrite run_events_app, RT5. cbn [run_events]. rewrite <- E6. reflexivity. }
+  assert (T6 : forall e, In e ((timers_evs (r_signal r) ++ [EReadPhase]) ++ [EResponsePhase (r_wblock r)]) -> arr e = []).
+  { intros y Hy. apply in_app_or in Hy as [Hy|[<-|[]]]; auto. }
+  destruct (res_zero_dec s6) as [R6|R6].
+  2:{ rewrite R6. eexists. split; [symmetry; exact RT6|exact T6]. }
+  rewrite R6. change (negb (0 =? 0)) with false. cbv iota.
+  assert (E7 : fst (epilogue c s6) = step c EEpilogue s6).
+  { unfold step. rewrite R6. reflexivity. }
+  destruct (epilogue c s6) as [s7 again] eqn:EP. cbn [fst] in E7.
+  assert (RT7 : run_events c (((timers_evs (r_signal r) ++ [EReadPhase]) ++ [EResponsePhase (r_wblock r)]) ++ [EEpilogue]) s = s7).
+  { rewrite run_events_app, RT6. cbn [run_events]. rewrite <- E7. reflexivity. }
+  assert (T7 : forall e, In e (((timers_evs (r_signal r) ++ [EReadPhase]) ++ [EResponsePhase (r_wblock r)]) ++ [EEpilogue]) -> arr e = []).
+  { intros y Hy. apply in_app_or in Hy as [Hy|[<-|[]]]; auto. }
+  destruct again.
+  2:{ eexists. split; [symmetry; exact RT7|exact T7]. }
+  assert (shutdown s7 = true /\ res s7 = 0) as [S7 R7].
+  { unfold epilogue in EP. repeat bmh EP; inv EP; cbn; auto. }
+  destruct (poll_body_events_shutdown c r f s7 S7 R7) as [es8 [E8 T8]].
+  exists ((((timers_evs (r_signal r) ++ [EReadPhase]) ++ [EResponsePhase (r_wblock r)]) ++ [EEpilogue]) ++ es8). split.
+  - rewrite run_events_app, RT7. exact E8.
+  - intros y Hy. apply in_app_or in Hy as [Hy|Hy]; auto.
+Qed.
+
+Lemma poll_events c r s : exists es, poll c r s = run_events c es s /\ arrivals es = r_arrive r.
+Proof.
+  unfold poll. destruct (res_zero_dec s) as [R|R].
+  - rewrite R. change (negb (0 =? 0)) with false. cbv iota.
+    assert (R0 : res (env_step r s) = 0) by (unfold env_step; destruct (r_rd r); exact R).
+    destruct (poll_body_events c r 2 (env_step r s) R0) as [es [E T]].
+    exists (EEnv r :: es). split.
+    + cbn [run_events]. unfold step. rewrite R. change (negb (0 =? 0)) with false. cbv iota. exact E.
+    + cbn [arrivals arr]. rewrite (no_arr es T). apply app_nil_r.
+  - rewrite R. exists [EEnv r]. split.
+    + cbn [run_events]. rewrite step_id by exact R. reflexivity.
+    + cbn. apply app_nil_r.
+Qed.
+
+Lemma arrivals_app e1 e2 : arrivals (e1 ++ e2) = arrivals e1 ++ arrivals e2.
+Proof. induction e1 as [|x e1 IH]; cbn; [reflexivity|]. rewrite IH, app_assoc. reflexivity. Qed.
+
+Lemma run_polls_events c rs : forall s, exists es, run_polls c rs s = run_events c es s /\ arrivals es = poll_arrivals rs.
+Proof.
+  induction rs as [|r rs IH]; intros s; cbn [run_polls poll_arrivals].
+  - exists []. split; reflexivity.
+  - destruct (poll_events c r s) as [e1 [E1 A1]]. destruct (IH (poll c r s)) as [e2 [E2 A2]].
+    exists (e1 ++ e2). split.
+    + rewrite run_events_app, <- E1. exact E2.
+    + rewrite arrivals_app, A1, A2. reflexivity.
+Qed.
+
+(* close means close for every sequence of polls whose input is outside the F15 class *)
+Theorem quiet_polls_outside_F15 c hs0 : fx c = tree_fixes -> has_signal c = false ->
+  forall rs, calm c (number 0 hs0) (poll_arrivals rs) = true ->
+  quiet_after_close (trace (run_polls c rs (init c hs0))) = true.
+Proof.
+  intros TREE NS rs CA. destruct (run_polls_events c rs (init c hs0)) as [es [E A]]. rewrite E.
+  apply quiet_outside_F15; auto. unfold Known_F15. rewrite A, CA. discriminate.
+Qed.
